@@ -10,14 +10,14 @@ Tokens == <<" ", "a", "ab", "b*", "a?", "AND", "OR", "NOT", "ANDNOT", "ANDMAYBE"
             "(", ")", "[", "]", "{", "}", "<dquote>", "'", ":", "^", "~", "*", "?", "title:", "num:",
             "when:", "flag:", "ng:", "price:", "nosuch:", "*:", "2", "-3", "1.5", "-", "+", "<", ">=",
             "<backslash>", "/", ".", "<eacute>", "<emoji>", "<tab>", "2010-01-02", "yes", "now", "&", "|", "!",
-            "^2", "~2", "~", "st:", "dec:", "99991231235959999999", "tag:", "ngw:">>
+            "^2", "~2", "~", "st:", "dec:", "99991231235959999999", "tag:", "ngw:", "0000", "00000101">>
 
 \* grammar-aware inputs: every sequence of at most N_EDGE tokens placed at the edge of a group, a field
 \* group, a range, a phrase, an operator's operand position, or after a typed field prefix
 Contexts == << <<"a (", " b)">>, <<"a (b ", ")">>, <<"(", ")">>, <<"a OR (", " b)">>, <<"title:(", " a) b">>,
                <<"a (", ")">>, <<"[", " TO b]">>, <<"[a TO ", "]">>, <<"<dquote>", "<dquote>">>,
                <<"<dquote>a ", "<dquote>~2">>, <<"a AND ", " AND b">>, <<"NOT ", "">>, <<"a ", "">>, <<"", " a">>,
-               <<"num:", "">>, <<"when:[", " TO]">>, <<"flag:", " a">>, <<"a ANDNOT ", "">>, <<"title:", "^2">> >>
+               <<"num:", "">>, <<"when:[", " TO]">>, <<"flag:", " a">>, <<"a ANDNOT ", "">>, <<"title:", "^2">>, <<"when:", "">> >>
 
 NExh == atoi(IOEnv.N_EXH)
 NRand == atoi(IOEnv.N_RAND)
